@@ -832,6 +832,148 @@ func (c *concCtx) scenarioAbsorb(sz uint) {
 	c.r.emit("scenario", fmt.Sprintf("scenario absorb sz=%d", sz), "ok")
 }
 
+// scenarioInjectedPending: C05 / C06 / C13 — the pending value is produced by a record the real kernel
+// raises only in situations that are hard to stage (unmount, a mark that is already gone, the
+// overflow marker, housekeeping records for a listed watch): an injected Watcher (the unmodified
+// reader fed through a socket pair, real inotify instance behind Add/Remove) gets one datagram
+// with the record, a given consumer behaviour, and then every control call must return.
+func (c *concCtx) scenarioInjectedPending(consumer, kind string) {
+	name := fmt.Sprintf("injected consumer=%s record=%s", consumer, kind)
+	g0 := fsnotifyGoroutines()
+	dir, err := os.MkdirTemp("", "fsnverif-concinj")
+	check(err)
+	defer os.RemoveAll(dir)
+	var w *fsnotify.Watcher
+	var realFd, injectFd int
+	for i := 0; ; i++ {
+		w, realFd, injectFd, err = fsnotify.VerifNewInjected(0)
+		if err == nil || i > 600 || !(errors.Is(err, unix.EMFILE) || errors.Is(err, unix.ENFILE)) {
+			break
+		}
+		time.Sleep(100 * time.Millisecond)
+		beat()
+	}
+	check(err)
+	defer unix.Close(injectFd)
+	defer unix.Close(realFd) // Close() closes the reader's end of the socket pair; the instance behind Add/Remove is the harness's
+	sub := filepath.Join(dir, "sub")
+	check(os.Mkdir(sub, 0o755))
+	check(w.Add(dir))
+	check(w.Add(sub))
+	var wdSub uint32
+	var st unix.Stat_t
+	check(unix.Stat(sub, &st))
+	for _, m := range readFdinfo(realFd) {
+		if m.ino == st.Ino {
+			wdSub = m.wd
+		}
+	}
+	stop := make(chan struct{})
+	var evDone, erDone atomic.Bool
+	go func() {
+		ev, er := w.Events, w.Errors
+		if consumer == "onlyErrors" || consumer == "neither" {
+			ev = nil
+		}
+		if consumer == "onlyEvents" || consumer == "neither" {
+			er = nil
+		}
+		for {
+			select {
+			case <-stop:
+				return
+			case _, ok := <-ev:
+				if !ok {
+					evDone.Store(true)
+					ev = nil
+				}
+			case _, ok := <-er:
+				if !ok {
+					erDone.Store(true)
+					er = nil
+				}
+			}
+		}
+	}()
+	var recs []rawRec
+	switch kind {
+	case "unmount":
+		recs = []rawRec{{wd: wdSub, mask: inUnmount}, {wd: wdSub, mask: inIgnored}}
+	case "ignored":
+		recs = []rawRec{{wd: wdSub, mask: inIgnored}}
+	case "delete_self":
+		recs = []rawRec{{wd: wdSub, mask: inDeleteSelf}, {wd: wdSub, mask: inIgnored}}
+	case "move_self": // the mark is still there: the clean-up's inotify_rm_watch succeeds
+		recs = []rawRec{{wd: wdSub, mask: inMoveSelf}}
+	case "move_self_mark_gone": // the kernel dropped the mark first (renamed, then deleted): EINVAL, not an error
+		unix.InotifyRmWatch(realFd, wdSub)
+		recs = []rawRec{{wd: wdSub, mask: inMoveSelf}}
+	case "overflow":
+		recs = []rawRec{{wd: 0xffffffff, mask: inQOverflow}, {wd: wdSub, mask: inModify, name: kernelPad("x")}}
+	case "unknown_wd":
+		recs = []rawRec{{wd: 987654, mask: inModify, name: kernelPad("x")}, {wd: 987654, mask: inUnmount}}
+	case "create_dir":
+		recs = []rawRec{{wd: wdSub, mask: inCreate | inIsdir, name: kernelPad("newdir")}, {wd: wdSub, mask: inMovedFrom | inIsdir, cookie: 7, name: kernelPad("a")}}
+	}
+	var buf []byte
+	for _, r := range recs {
+		buf = append(buf, r.bytes()...)
+	}
+	_, werr := unix.Write(injectFd, buf)
+	check(werr)
+	time.Sleep(40 * time.Millisecond) // the reader gets as far as this consumer lets it
+
+	ok := c.within("C05", "C05:watchlist-blocked", name+": WatchList did not return", func() { w.WatchList() })
+	ok = ok && c.within("C05", "C05:add-blocked", name+": Add did not return", func() { w.Add(dir) })
+	ok = ok && c.within("C05", "C05:remove-blocked", name+": Remove did not return", func() { w.Remove(filepath.Join(dir, "nope")) })
+	closed := c.within("C05", "C05:close-blocked", name+": Close did not return", func() {
+		var wg sync.WaitGroup
+		wg.Add(2)
+		go func() { defer wg.Done(); w.Close() }()
+		go func() { defer wg.Done(); w.Close() }()
+		wg.Wait()
+	})
+	close(stop)
+	if !closed {
+		c.report("C13", "C13:close-never-completed", name+": Close did not complete: the inotify descriptor, the kernel watches and the reader goroutine are never released", map[string]interface{}{})
+		c.report("C06", "C06:channels-never-closed", name+": Close did not complete, the channels are never closed", map[string]interface{}{})
+	} else if ok {
+		drained := func(what string, closedNow func() bool) {
+			if !settle(closedNow) {
+				c.report("C06", "C06:channel-not-closed:"+what, name+": "+what+" not closed after Close returned", map[string]interface{}{})
+			}
+		}
+		drained("Events", func() bool {
+			for {
+				select {
+				case _, ok := <-w.Events:
+					if !ok {
+						return true
+					}
+				default:
+					return false
+				}
+			}
+		})
+		drained("Errors", func() bool {
+			for {
+				select {
+				case _, ok := <-w.Errors:
+					if !ok {
+						return true
+					}
+				default:
+					return false
+				}
+			}
+		})
+		if !settle(func() bool { return fsnotifyGoroutines() <= g0 }) {
+			c.report("C13", "C13:reader-goroutine-alive-after-close", fmt.Sprintf("%s: reader goroutines %d -> %d after Close returned", name, g0, fsnotifyGoroutines()), map[string]interface{}{})
+		}
+	}
+	c.r.emit("scenario", "scenario "+strings.ReplaceAll(name, " ", "_"), "ok")
+}
+
 func runConc(r *rec, g *rng, tier, what, out string, extra map[string]interface{}) {
 	mon, err := os.Create(filepath.Join(out, "monitor.jsonl"))
 	check(err)
@@ -874,6 +1016,12 @@ func runConc(r *rec, g *rng, tier, what, out string, extra map[string]interface{
 				}
 			}
 		}
+		// pending values from records that are hard to stage with the real kernel (injected Watcher)
+		for _, cs := range []string{"neither", "onlyEvents", "onlyErrors"} {
+			for _, k := range []string{"unmount", "ignored", "delete_self", "move_self", "move_self_mark_gone", "overflow", "unknown_wd", "create_dir"} {
+				c.scenarioInjectedPending(cs, k)
+			}
+		}
 		// kernel queue overflow pending (expensive: once per consumer kind)
 		for _, cs := range []string{"neither", "onlyEvents"} {
 			c.scenarioClose(0, cs, "overflow")
@@ -893,6 +1041,9 @@ func runConc(r *rec, g *rng, tier, what, out string, extra map[string]interface{
 		c.scenarioLeak(n)
 		c.scenarioNewFails()
 		c.raceClose(r, "C13", thorough)
+		for _, k := range []string{"unmount", "overflow", "move_self_mark_gone", "delete_self"} {
+			c.scenarioInjectedPending("onlyEvents", k)
+		}
 		// Close with an error / an overflow pending and nobody reading Errors: everything is released all the same
 		for _, p := range []string{"error", "overflow"} {
 			fd0, g0 := inotifyFds(), fsnotifyGoroutines()
